@@ -18,7 +18,23 @@ for d in sorted(glob.glob(os.path.join(os.path.dirname(os.path.abspath(__file__)
     summ = m.get("summary", "").replace("|", "/").replace("\n", " ")
     if len(summ) > 260:
         summ = summ[:257] + "..."
-    rows.append("| %s | %s | %s |" % (name, summ, ", ".join(how) if how else "**missed**"))
-print("| seeded defect | change (suite still passes; the demo in `seeded/<id>/` fails with it) | caught by |")
+    if name.startswith("refactor-"):
+        how = [k for k, v in c.get("checks", {}).items() if v.get("exit") != 0]
+        rows.append("| %s | %s | %s |" % (name, summ, ", ".join(how) if how else "none"))
+    else:
+        rows.append("| %s | %s | %s |" % (name, summ, ", ".join(how) if how else "**missed**"))
+import sys
+sel = sys.argv[1] if len(sys.argv) > 1 else "round1"
+def keep(r):
+    name = r.split("|")[1].strip()
+    if sel == "refactor":
+        return name.startswith("refactor-")
+    if sel == "round2":
+        return "-r2m" in name
+    return not name.startswith("refactor-") and "-r2m" not in name
+if sel == "refactor":
+    print("| refactoring | change (behaviour preserving; the suite passes) | checks that raise an alarm |")
+else:
+    print("| seeded defect | change (suite still passes; the demo in `seeded/<id>/` fails with it) | caught by |")
 print("|---|---|---|")
-print("\n".join(rows))
+print("\n".join(r for r in rows if keep(r)))
